@@ -5,7 +5,9 @@ package actor
 import (
 	"context"
 	"errors"
+	"time"
 
+	gerrors "github.com/tochemey/goakt/v4/errors"
 	"github.com/tochemey/goakt/v4/internal/commands"
 	"github.com/tochemey/goakt/v4/log"
 	"github.com/tochemey/goakt/v4/reentrancy"
@@ -104,13 +106,13 @@ func vC16_sequential() {
 
 type vC16Msg struct {
 	op, id, id2, mode, max int
-	disable, enable       bool
+	disable, enable        bool
 }
 
 const (
-	vC16User    = iota // ordinary user message number id
-	vC16Req2           // issue requests 0 and 1 in the same Receive (overrides mode, max)
-	vC16Script         // Request 0 (override id); [DisableReentrancy]; [EnableReentrancy(mode, max)]; Request 1 (override id2)
+	vC16User   = iota // ordinary user message number id
+	vC16Req2          // issue requests 0 and 1 in the same Receive (overrides mode, max)
+	vC16Script        // Request 0 (override id); [DisableReentrancy]; [EnableReentrancy(mode, max)]; Request 1 (override id2)
 )
 
 var (
@@ -128,6 +130,9 @@ var (
 	vC16_order      [2]int
 	vC16_nHandled   int
 	vC16_supervised int
+	vC16_payload    int    // payload of a successful reply
+	vC16_result     [2]any // what the continuation of request i received
+	vC16_err        [2]error
 )
 
 func vC16_tell(pid *PID, ctx context.Context, to *PID, message any) error {
@@ -140,9 +145,24 @@ func vC16_tell(pid *PID, ctx context.Context, to *PID, message any) error {
 	vC16_corr[i] = req.CorrelationID
 	return nil
 }
-func vC16_noSchedule(d *dispatcher, s schedulable)               {}
-func vC16_noReschedule(w *worker, s schedulable)                 {}
-func vC16_supervision(pid *PID, signal *supervisionSignal)       { vC16_supervised++ }
+func vC16_noSchedule(d *dispatcher, s schedulable)         {}
+func vC16_noReschedule(w *worker, s schedulable)           {}
+func vC16_supervision(pid *PID, signal *supervisionSignal) { vC16_supervised++ }
+
+// Only for checks that stop the real dispatchOne (C02 substitutes it in its own entries): the same routing for the message
+// kinds of these scenarios: the reentrancy stash gate, then async responses, then the actor's Receive.
+func vC16_dispatchOne(pid *PID, received *ReceiveContext, now time.Time) {
+	if pid.enableReentrancyStash(received) {
+		vAssert(pid.stash(received) == nil, "a held message is accepted by the stash")
+		return
+	}
+	switch msg := received.Message().(type) {
+	case *commands.AsyncResponse:
+		pid.handleAsyncResponse(received, msg)
+	default:
+		pid.handleReceived(received, now)
+	}
+}
 
 // reference model: admitted requests whose continuation has not run yet
 func vC16_outstanding(blockingOnly bool) int {
@@ -158,13 +178,15 @@ func vC16_outstanding(blockingOnly bool) int {
 func vC16_request(rctx *ReceiveContext, i, override int) {
 	eff := vC16_gMode
 	inFlight := vC16_outstanding(false)
-	var call RequestCall
 	if override >= 0 {
 		eff = reentrancy.Mode(override)
-		call = rctx.Request(vC16_target, i, WithReentrancyMode(eff))
-	} else {
-		call = rctx.Request(vC16_target, i)
 	}
+	// one call site: the option applies WithReentrancyMode only when the script asks for a per-call override
+	call := rctx.Request(vC16_target, i, func(c *requestConfig) {
+		if override >= 0 {
+			WithReentrancyMode(reentrancy.Mode(override))(c)
+		}
+	})
 	allowed := eff != reentrancy.Off && (vC16_gMax == 0 || inFlight < vC16_gMax)
 	if call == nil {
 		vAssert(!allowed || vC16_tellFail[i], "a request is rejected only when requests are off, the in-flight limit is reached or the send failed")
@@ -176,9 +198,10 @@ func vC16_request(rctx *ReceiveContext, i, override int) {
 	vAssert(!vC16_tellFail[i], "a request whose send failed is not reported as started")
 	vC16_reqMode[i] = eff
 	vC16_calls[i] = call
-	call.Then(func(any, error) {
+	call.Then(func(result any, err error) {
 		vAssert(vC16_inTurn, "a continuation runs on the requesting actor's turn")
 		vC16_done[i]++
+		vC16_result[i], vC16_err[i] = result, err
 	})
 }
 
@@ -224,6 +247,7 @@ func vC16_newActor(mode reentrancy.Mode, max int) (*PID, *worker) {
 	vC16_corr, vC16_calls, vC16_reqMode, vC16_done = [2]string{}, [2]RequestCall{}, [2]reentrancy.Mode{}, [2]int{}
 	vC16_gMode, vC16_gMax = mode, max
 	vC16_handled, vC16_order, vC16_nHandled, vC16_supervised, vC16_inTurn = [2]int{}, [2]int{}, 0, 0, false
+	vC16_result, vC16_err = [2]any{}, [2]error{}
 	return pid, &worker{dispatcher: pid.dispatcher}
 }
 
@@ -259,12 +283,19 @@ func vC16_complete(pid *PID, w *worker, i int, errReply, cancel bool) {
 		if errReply {
 			resp.Error = "boom"
 		} else {
-			resp.Message = 42
+			resp.Message = vC16_payload
 		}
 		pid.doReceive(&ReceiveContext{message: resp, self: pid, sender: vC16_target, ctx: context.Background()})
 	}
 	vC16_drain(pid, w)
 	vAssert(vC16_done[i] == 1, "the continuation of a request has run exactly once when its outcome was processed")
+	if cancel {
+		vAssert(vC16_result[i] == nil && errors.Is(vC16_err[i], gerrors.ErrRequestCanceled), "a cancelled request completes with ErrRequestCanceled")
+	} else if errReply {
+		vAssert(vC16_result[i] == nil && vC16_err[i] != nil, "an error reply completes the request with an error")
+	} else {
+		vAssert(vC16_result[i] == any(vC16_payload) && vC16_err[i] == nil, "a reply completes the request with the reply's payload")
+	}
 }
 
 func vC16_finish(pid *PID, nUser int) {
@@ -297,11 +328,11 @@ var vC16_orders = [12][4]int{
 
 // One Receive issues two requests: request 0 with the actor's default mode, request 1 with a per-call override (case "modes":
 // bit 0 / bit 1 = request 0 / 1 is StashNonReentrant, else AllowAll). Then two user messages and the two outcomes arrive in
-// the order selected by case "order", the mailbox being drained after every arrival. Request 1 ends by RequestCall.Cancel
-// in the odd-numbered orders. The shape of the history is concrete (cases); reply payloads and the limit are symbolic.
+// each of the 12 orders, the mailbox being drained after every arrival. Request 1 ends by RequestCall.Cancel in the
+// odd-numbered orders. The shape of every history is concrete (a symbolic shape makes every later clone of a held message a
+// distinct object per path); the reply payload is symbolic.
 func vC16_mixedModes() {
-	modes, orderIdx := vCase("modes"), vCase("order")
-	order := vC16_orders[orderIdx]
+	modes := vCase("modes")
 	mode0, mode1 := reentrancy.AllowAll, reentrancy.AllowAll
 	if modes&1 != 0 {
 		mode0 = reentrancy.StashNonReentrant
@@ -309,62 +340,68 @@ func vC16_mixedModes() {
 	if modes&2 != 0 {
 		mode1 = reentrancy.StashNonReentrant
 	}
-	max := vNondetInt("policyMax")
-	vAssume(max == 0 || max == 2 || max == 3) // both requests fit
-	err0, err1 := vNondetBool("errorReply0"), vNondetBool("errorReply1")
-	pid, w := vC16_newActor(mode0, max)
-	vC16_send(pid, w, &vC16Msg{op: vC16Req2, mode: -1, max: int(mode1)})
-	vAssert(vC16_calls[0] != nil && vC16_calls[1] != nil, "both requests are admitted")
-	for k := 0; k < 4; k++ {
-		switch e := order[k]; e {
-		case 0, 1:
-			vC16_send(pid, w, &vC16Msg{op: vC16User, id: e})
-		case 2:
-			vC16_complete(pid, w, 0, err0, false)
-		case 3:
-			vC16_complete(pid, w, 1, err1, orderIdx%2 == 1)
+	vC16_payload = vNondetInt("payload")
+	for orderIdx := 0; orderIdx < 12; orderIdx++ {
+		order := vC16_orders[orderIdx]
+		max := [3]int{0, 2, 3}[orderIdx%3] // both requests fit
+		pid, w := vC16_newActor(mode0, max)
+		vC16_send(pid, w, &vC16Msg{op: vC16Req2, mode: -1, max: int(mode1)})
+		vAssert(vC16_calls[0] != nil && vC16_calls[1] != nil, "both requests are admitted")
+		for k := 0; k < 4; k++ {
+			switch e := order[k]; e {
+			case 0, 1:
+				vC16_send(pid, w, &vC16Msg{op: vC16User, id: e})
+			case 2:
+				vC16_complete(pid, w, 0, false, false) // a reply
+			case 3:
+				vC16_complete(pid, w, 1, true, orderIdx%2 == 1) // an error reply or a cancellation
+			}
 		}
+		vC16_finish(pid, 2)
 	}
-	vC16_finish(pid, 2)
 	vCover("end")
 }
 
-// One Receive calls Request, then optionally DisableReentrancy, then optionally EnableReentrancy(newMode, newMax), then
-// Request again (policy, per-call overrides, the toggles and a failing send are all solver-chosen); afterwards the two
-// outcomes arrive in a solver-chosen order, each on its own turn.
+// One Receive calls Request, then (case "toggle": 0 nothing, 1 Disable, 2 Disable+Enable, 3 Enable) DisableReentrancy and/or
+// EnableReentrancy(newMode, newMax), then Request again; afterwards the two outcomes arrive, each on its own turn. Case
+// "policy" is the actor's initial mode; every combination of initial limit 0..2, new limit 0..2, per-call override of the
+// second request {none, AllowAll, StashNonReentrant}, new mode = {initial mode, the other one} and outcome order is run.
 func vC16_retune() {
-	mode := reentrancy.Mode(vNondetInt("policyMode"))
-	max := vNondetInt("policyMax")
-	vAssume(mode == reentrancy.AllowAll || mode == reentrancy.StashNonReentrant)
-	vAssume(max >= 0 && max <= 2)
-	m := &vC16Msg{op: vC16Script, id: vNondetInt("override0"), id2: vNondetInt("override1"), mode: vNondetInt("newMode"), max: vNondetInt("newMax"),
-		disable: vNondetBool("disable"), enable: vNondetBool("enable")}
-	vAssume(m.id >= -1 && m.id <= 2 && m.id2 >= -1 && m.id2 <= 2 && m.mode >= 0 && m.mode <= 2 && m.max >= 0 && m.max <= 2)
-	err0, err1 := vNondetBool("errorReply0"), vNondetBool("errorReply1")
-	first := vNondetBool("outcome1First")
-	fail0, fail1 := vNondetBool("sendFails0"), vNondetBool("sendFails1")
-	pid, w := vC16_newActor(mode, max)
-	vC16_tellFail = [2]bool{fail0, fail1}
-	vC16_send(pid, w, m)
-	if first {
-		vC16_complete(pid, w, 1, err1, false)
-	}
-	vC16_complete(pid, w, 0, err0, false)
-	if !first {
-		vC16_complete(pid, w, 1, err1, false)
-	}
-	vC16_finish(pid, 0)
-	if vC16_calls[0] != nil && vC16_calls[1] != nil {
-		vCover("both-admitted")
-		if m.disable && m.enable {
-			vCover("both-admitted-across-disable-enable")
+	mode := reentrancy.Mode(vCase("policy"))
+	toggle := vCase("toggle")
+	vC16_payload = vNondetInt("payload")
+	for max := 0; max <= 2; max++ {
+		for newMax := 0; newMax <= 2; newMax++ {
+			for ov := 0; ov < 3; ov++ {
+				for k := 0; k < 4; k++ {
+					newMode := mode
+					if k&2 != 0 {
+						newMode = 3 - mode
+					}
+					vC16_retuneOnce(mode, max, toggle, newMode, newMax, [3]int{-1, 1, 2}[ov], k&1 != 0)
+				}
+			}
 		}
-		if m.disable && !m.enable {
-			vCover("override-admitted-while-off")
-		}
-	}
-	if vC16_calls[0] != nil && vC16_calls[1] == nil && !fail1 && m.disable && m.enable {
-		vCover("second-rejected-by-limit-after-reenable")
 	}
 	vCover("end")
+}
+
+func vC16_retuneOnce(mode reentrancy.Mode, max, toggle int, newMode reentrancy.Mode, newMax, override1 int, first bool) {
+	m := &vC16Msg{op: vC16Script, id: -1, id2: override1, mode: int(newMode), max: newMax, disable: toggle == 1 || toggle == 2, enable: toggle == 2 || toggle == 3}
+	pid, w := vC16_newActor(mode, max)
+	vC16_send(pid, w, m)
+	vAssert(vC16_calls[0] != nil, "the first request is admitted")
+	if first {
+		vC16_complete(pid, w, 1, true, false)
+	}
+	vC16_complete(pid, w, 0, false, false)
+	if !first {
+		vC16_complete(pid, w, 1, true, false)
+	}
+	vC16_finish(pid, 0)
+	if vC16_calls[1] != nil {
+		vCover("both-admitted")
+	} else {
+		vCover("second-rejected")
+	}
 }
